@@ -262,7 +262,15 @@ pub fn run(args: &[String]) {
             while !done.load(std::sync::atomic::Ordering::SeqCst) {
                 let s = AnyStream::connect(&addr);
                 if let Ok(mut s) = s {
-                    match b % 4 {
+                    match b % 5 {
+                        4 => {
+                            // well-formed but unusual: parameters nested as deep as a JSON parser accepts, then stays idle
+                            let deep = format!("{}1{}", "{\"a\":".repeat(120), "}".repeat(120));
+                            let _ = s.write_all(format!("{{\"method\":\"org.example.gen.Ping\",\"parameters\":{{\"ping\":\"x\",\"deep\":{}}}}}\0", deep).as_bytes());
+                            while !done.load(std::sync::atomic::Ordering::SeqCst) {
+                                std::thread::sleep(Duration::from_millis(5));
+                            }
+                        }
                         0 => {
                             // idle peer: connects, sends nothing, stays
                             while !done.load(std::sync::atomic::Ordering::SeqCst) {
